@@ -29,6 +29,14 @@ index values" at offset 6; character codes above 255 are not covered (glyph 0). 
 def spec0 (b : Bytes) (c : Nat) : Nat :=
   if c < 256 then (b.getD (6 + c) 0).toNat else 0
 
+/-- Format 0 under a platform-specific encoding: "character codes" are codes of that encoding, so
+the glyph of a Unicode scalar `r` is `glyphIdArray[c]` for the code `c < 256` whose character is `r`
+(`c2r c = r`; the first such code), glyph 0 if the encoding has no such character. -/
+def spec0Rune (c2r : Nat → Nat) (b : Bytes) (r : Nat) : Nat :=
+  match (List.range 256).find? (fun c => c2r c == r) with
+  | some c => (b.getD (6 + c) 0).toNat
+  | none => 0
+
 /-! ## format 6 -/
 
 inductive Res6 where
